@@ -144,6 +144,44 @@ void run_tree(const Forest &f, const std::string &scratch) {
     fs::current_path(scratch);
 }
 
+
+// ------------------------------------------------------------------ working directories with long absolute paths
+// "any depth": the absolute path of the working directory gets a chosen total length L (each component stays far below NAME_MAX, the whole path
+// below PATH_MAX); getWorkingDirectory, the relative-path queries and DirectoryVisitor are checked from there.
+void spit_file(const std::string &p, size_t n) { std::ofstream o(p, std::ios::binary); std::string data(n, 'x'); o.write(data.data(), (std::streamsize)data.size()); }
+
+void deep_cwd(size_t L, const std::string &scratch) {
+    std::string base = scratch + fmt("/deep%zu", L);
+    fs::remove_all(base); fs::create_directories(base); fs::current_path(base);
+    std::string want = base;
+    while (want.size() < L) {
+        size_t room = L - want.size();                     // includes the separator
+        size_t n = std::min<size_t>(100, room - 1);
+        if (room - 1 - n == 1) n--;                        // never leave a remainder of 1 (a separator without a name)
+        if (n == 0) break;
+        std::string comp(n, (char)('a' + (want.size() % 7)));
+        if (mkdir(comp.c_str(), 0755) != 0 || chdir(comp.c_str()) != 0) { bad("deep:setup", fmt("cannot create a working directory of length %zu", L)); fs::current_path(scratch); return; }
+        want += "/" + comp;
+    }
+    std::string home = cwd();
+    if (home != want || home.size() != L) { bad("deep:setup", fmt("working directory has length %zu, wanted %zu", home.size(), L)); fs::current_path(scratch); return; }
+    shm->transitions++;
+    std::string got = Path::getWorkingDirectory().toString();
+    if (got != home) bad("deep:getWorkingDirectory", fmt("getWorkingDirectory() returned a string of %zu bytes ('%.40s...'), the working directory has %zu bytes", got.size(), got.c_str(), home.size()));
+    spit_file("f", 3); fs::create_directory("sub"); spit_file("sub/g", 1);
+    for (const std::string &s : {std::string("f"), std::string("sub"), std::string("sub/g"), std::string("."), std::string("./sub/"), std::string("missing"), home + "/f", home + "/sub"}) check_path(s);
+    for (const std::string &d : {scratch, std::string("sub"), std::string(".."), home + "/sub"}) {
+        std::error_code ec; std::string target = fs::canonical(d, ec).string();
+        { tulz::DirectoryVisitor v{Path(d)}; shm->transitions++;
+          if (cwd() != target) bad("deep:visitor-enter", fmt("from a working directory of %zu bytes DirectoryVisitor(\"%.40s\") did not enter its directory", L, d.c_str())); }
+        if (cwd() != home) { bad("deep:visitor-restore", fmt("from a working directory of %zu bytes: after DirectoryVisitor(\"%.40s\") was destroyed the working directory is '%.60s' (%zu bytes), not the previous one", L, d.c_str(), cwd().c_str(), cwd().size())); fs::current_path(home); }
+    }
+    { tulz::DirectoryVisitor v{Path("sub")}; { tulz::DirectoryVisitor w{Path(scratch)}; } if (cwd() != home + "/sub") bad("deep:visitor-nested", "nested visitor did not restore the long inner directory"); }
+    if (cwd() != home) { bad("deep:visitor-restore", fmt("from a working directory of %zu bytes: nested visitors did not restore it", L)); }
+    fs::current_path(scratch);
+    fs::remove_all(base);
+}
+
 // ------------------------------------------------------------------ string identities
 void string_part() {
     const char *SEG[] = {"a", "b.c", ".", "..", "x y", "\xc3\xa9"};
@@ -192,6 +230,12 @@ void explore() {
     fs::remove_all(scratch); fs::create_directories(scratch);
     std::vector<std::function<void()>> tasks;
     tasks.push_back([] { string_part(); });
+    tasks.push_back([=] {
+        std::vector<size_t> lens = {64, 100, 200, 254, 255, 256, 257, 300, 511, 512, 513, 1000, 1023, 1024, 1025, 2047, 2048, 2049, 3000, 4000, 4083, 4084, 4085};   // every absolute path the oracle uses (cwd + "/sub/g") must stay below PATH_MAX
+        if (thorough()) for (size_t l = 60; l <= 4085; l += 1) lens.push_back(l);
+        for (size_t L : lens) { if (deadline_passed()) { shm->exhaustive = 0; return; } mark(fmt("deepcwd %zu", L)); deep_cwd(L, scratch); shm->evaluations++; shm->states++; shm->nontrivial++; }
+        sample("deepcwd 256");
+    });
     for (int n = 0; n <= maxn; n++) {
         std::vector<Forest> all; gen(n, 3, all);
         int parts = n >= 4 ? 14 : 1;
@@ -211,6 +255,7 @@ void explore() {
     shm->validated = shm->transitions;
     sx::detail(fmt("every directory forest with at most %d entries, depth <= 3, at most 4 siblings, each entry a directory or a regular file of 0/1/4097 bytes, sibling names rotating through {a, 'b c', .h, e-acute}; for every node and for missing siblings, "
                    "by absolute path, relative path, './' prefix and trailing separator: exists/isFile/isDirectory/size/listChildren against std::filesystem; DirectoryVisitor for every directory (absolute, relative, nested, missing, unused, explicit restore); "
+                   "working directories whose absolute path has a chosen total length (64..4085 bytes across the 255/256, 1024, 2048 boundaries and up to PATH_MAX; thorough: every length 60..4085): getWorkingDirectory, relative queries, DirectoryVisitor enter/restore/nesting; "
                    "string identities for every path of <= 3 segments over {a, b.c, ., .., 'x y', e-acute} with optional leading separator, 0-2 trailing separators and doubled inner separators", maxn));
 }
 
@@ -218,6 +263,7 @@ void replay(const std::string &hist) {
     std::string scratch = fmt("/dev/shm/tulz-verif-path-replay-%d", (int)getpid());
     fs::remove_all(scratch); fs::create_directories(scratch);
     if (hist.compare(0, 5, "tree ") == 0) { Forest f; size_t i = 0; std::string body = hist.substr(5); if (!dec(body, i, f)) violation("replay:parse", "cannot parse " + hist); else run_tree(f, scratch); }
+    else if (hist.compare(0, 8, "deepcwd ") == 0) deep_cwd((size_t)atol(hist.c_str() + 8), scratch);
     else string_part();
     fs::current_path("/"); fs::remove_all(scratch);
 }
